@@ -246,6 +246,7 @@ fn exec_t<T: Sc, F: Factory<T>>(sc: &Scenario) -> RunReport {
                             Opt::Ok => rep.probe("optimality_checked"),
                             Opt::Gated(why) => rep.probe(&format!("gated_out_{why}")),
                             Opt::Bad(e) => rep.violate(sc, "INCOHERENT_FINAL_STATE", "Fit/optimality", e),
+                            Opt::SvdBad(e) => rep.violate(sc, "SVD_INACCURATE", "nalgebra-svd", e),
                         }
                     }
                     _ => {
@@ -287,6 +288,7 @@ fn exec_t<T: Sc, F: Factory<T>>(sc: &Scenario) -> RunReport {
 
 enum Opt {
     Ok,
+    SvdBad(String),
     Gated(&'static str),
     Bad(String),
 }
@@ -309,6 +311,7 @@ fn optimality<T: Sc>(w: &World<T>, params: &[T], coeff: &[T], rnorm: f64) -> Opt
     if !a.all_finite() || !y.all_finite() {
         return Opt::Gated("nonfinite");
     }
+    let _ = s;
     if n < m {
         return Opt::Gated("wide");
     }
@@ -345,8 +348,18 @@ fn optimality<T: Sc>(w: &World<T>, params: &[T], coeff: &[T], rnorm: f64) -> Opt
     let r_hat = res(&c);
     let r_ref = res(&cref);
     let scale = y.fro() + a.abs_mul(&c).fro();
-    let slack = 64.0 * (m + n) as f64 * T::u() * (smax / smin) * scale + f64::MIN_POSITIVE;
+    // delivered accuracy of the SVD-based solve (see c06::floor): about 1e-10 in f64 even
+    // for condition numbers near 1; anything above that is either a logic error of the
+    // library or a decomposition that does not reconstruct its input (diagnosed below)
+    let floor = if T::NAME == "f64" { 1e-8 } else { 2e-3 };
+    let slack = (64.0 * (m + n) as f64 * T::u() + floor) * (smax / smin) * scale + f64::MIN_POSITIVE;
     if r_hat > r_ref + slack {
+        // diagnosis: is it the decomposition (known third-party defect) or the library's logic?
+        if let Some(e) = refmath::svd_reconstruction_error(&phiw) {
+            if e > refmath::svd_bad_threshold::<T>() {
+                return Opt::SvdBad(format!("nalgebra's SVD of the weighted basis matrix at the returned parameters does not reconstruct its input (relative error {e:e}); the returned coefficients reach ||W(Y - Phi C)|| = {r_hat:e}, an independent least-squares solution {r_ref:e}"));
+            }
+        }
         return Opt::Bad(format!(
             "the returned coefficients are not optimal for the returned parameters: ||W(Y - Phi C_hat)|| = {r_hat:e}, but an independent least-squares solution reaches {r_ref:e} (slack {slack:e}, reported residual norm {rnorm:e})"
         ));
